@@ -289,7 +289,13 @@ def check(chk, fx):
                 # ---- V5 operands
                 for o in ops:
                     r = expr_effects(f, o, loc, eff)
-                    if r:
+                    mt = _manipulator(f, o)
+                    if mt:
+                        chk.violation("EFF-V5", A.site(f, o), "EFF-V5:%s:manipulator" % q,
+                                      "a stream manipulator (%s) is inserted: it changes the formatting state of the "
+                                      "caller's stream for everything printed afterwards, so the ordinary messages no "
+                                      "longer appear unchanged in the verbose output" % mt)
+                    elif r:
                         chk.violation("EFF-V5", A.site(f, o), "EFF-V5:%s:%s" % (q, r[0].split(" at ")[0][:60]),
                                       "printed operand has a side effect: " + r[0])
                     elif once("EFF-V5", f, o):
@@ -327,6 +333,7 @@ def check(chk, fx):
     # ---------------------------------------------------------------- TRACE
     chk.rule("TRACE", "trace labels whose printed operand must be the action's operand", 4)
     _trace(chk, fx)
+    _trace_recognized(chk, fx)
     # the characters named in the trace ("Current char", "Unexpected character") come out of a 256-entry name table:
     # a byte must reach it as an unsigned index or the trace names something that was never read
     from .. import lexrules
@@ -409,6 +416,28 @@ def _context_of(n, pm):
         if k == "ReturnStmt":
             return "return-value"
         return k
+
+
+STATEFUL_MANIP_TYPES = ("std::_Setw", "std::_Setfill", "std::_Setprecision", "std::_Setbase", "std::_Setiosflags",
+                        "std::_Resetiosflags")
+STATELESS_MANIPS = ("endl", "flush", "ends")
+
+
+def _manipulator(f, o):
+    """Name of the stateful stream manipulator an inserted operand is (std::hex, std::setw(...), ...), else None."""
+    s = strip(o, casts=True)
+    if s is None:
+        return None
+    t = f.facts.TC(s.get("t"))
+    if s.get("k") == "DeclRefExpr" and s["d"]["k"] == "Function" and s["d"].get("f") != "ctpg":
+        if s["d"]["n"] in STATELESS_MANIPS:
+            return None
+        if "ios_base &" in t or "basic_ios<" in t or "basic_ostream<" in t:
+            return "std::" + s["d"]["n"]
+    for m in STATEFUL_MANIP_TYPES:
+        if t.replace("const ", "").startswith(m):
+            return m.replace("_S", "s").replace("_R", "r") + "(...)"
+    return None
 
 
 def _is_stream_root(f, n):
@@ -578,3 +607,62 @@ def _loc_lt(a, b):
         return (la, ca) < (lb, cb)
     except Exception:
         return False
+
+
+def _trace_recognized(chk, fx):
+    """TRACE-R: every term the parser gets to see is announced. On every structured path of get_current_term that gets
+    as far as the end-of-input test (i.e. looks for a new term) and does not report a lexer failure, the pending term
+    is set and trace_recognized_term is called exactly once, after the term was set. (The trace helper itself is
+    verbose-guarded: EFF-V1.)"""
+    from .. import flow
+    from ..canon import Canon
+    chk.rule("TRACE-R", "paths of get_current_term that produce a new term announce it", 2)
+    seen = set()
+    for f in fx.need(PARSER + "::get_current_term")[:4]:
+        cn = Canon(f)
+        flow.assert_structured(f)
+        n_new = 0
+        for ev, term_ in flow.paths(f.body, unroll=1):
+            eof_test = False
+            assigned = None
+            traced = []
+            failed = False
+            for i, e in enumerate(ev):
+                if e[0] == "cond" and "buffer_end" in cn.c(e[1]):
+                    eof_test = True
+                if e[0] in ("stmt", "cond", "return"):
+                    node = e[1] if e[0] != "return" else e[1].get("value")
+                    for n in walk(node):
+                        if A.is_call(n):
+                            nm = n["callee"]["n"]
+                            if nm == "trace_recognized_term":
+                                traced.append(i)
+                            elif nm == "unexpected_char":
+                                failed = True
+                    if e[0] == "stmt":
+                        for n2, target, op in A.writes(e[1]):
+                            p = A.access_path(target)
+                            if p and p[-1][0] == "field" and p[-1][2] == "current_term_idx" and assigned is None:
+                                assigned = i
+            if not eof_test or failed:
+                continue
+            n_new += 1
+            key = (f.o.get("l"), tuple(id(e[1]) for e in ev if e[0] == "cond"), tuple(e[2] for e in ev if e[0] == "cond"))
+            if key in seen:
+                continue
+            seen.add(key)
+            site = A.site(f)
+            if assigned is None:
+                chk.violation("TRACE-R", site, "TRACE-R:get_current_term:term-not-set",
+                              "a path that looks for a new term and does not fail returns without setting the pending term")
+            elif len(traced) != 1:
+                chk.violation("TRACE-R", site, "TRACE-R:get_current_term:not-announced",
+                              "a path that produces a new term calls trace_recognized_term %d time(s): with verbose on "
+                              "the trace omits (or repeats) a term the parser acts on" % len(traced))
+            elif traced[0] < assigned:
+                chk.violation("TRACE-R", site, "TRACE-R:get_current_term:announced-before-set",
+                              "the term is announced before it is stored: the trace names the previous term")
+            else:
+                chk.ok("TRACE-R", site, "new term set, then announced once")
+        if n_new == 0:
+            chk.incomplete("TRACE-R: no path of get_current_term reaches the end-of-input test")
